@@ -28,6 +28,7 @@ var checks = map[string]func(prop, tier string) int{
 	"C04": filterchk.MainC04,
 	"C05": func(p, t string) int { return algochk.MainWith(p, t, filterchk.C05SubPhase) },
 	"C06": readchk.Main,
+	"C07": livechk.MainC07,
 	"C08": livechk.MainC08,
 	"C09": livechk.MainC09,
 	"C10": fieldchk.Main,
